@@ -338,3 +338,23 @@ class Stepper:
         while not self.done:
             self.step()
         return self.stream
+
+
+def safe_stepper(cfg, passes=2, protocol="next"):
+    """Stepper whose construction failure is part of the observable stream
+    (a library that cannot build the schedule still has to behave the same
+    in a fresh interpreter and in a polluted one)."""
+    try:
+        return Stepper(cfg, passes, protocol)
+    except Exception as e:
+        st = Stepper.__new__(Stepper)
+        st.cfg = cfg
+        st.s = None
+        st.done = True
+        st.error = e
+        st.stream = [("construct raised", type(e).__name__)]
+        st.passes = 0
+        st.want = 0
+        st.protocol = protocol
+        st._it = None
+        return st
